@@ -212,7 +212,9 @@ void dispatch(Node& n, Call call) {
 		if constexpr (Call::template canValue<T>()) {
 			T t = isSigned(n.k) ? static_cast<T>(n.i) : static_cast<T>(n.u);
 			bool ok = call(t);
-			if (L && ok) { if (isSigned(n.k)) n.i = static_cast<int64_t>(t); else n.u = static_cast<uint64_t>(t); }
+			// the target is copied back whether or not the library reports it as loaded: a target that was modified by a load that is
+			// then reported as "not loaded" must be visible to the oracle (canaryIntact)
+			if (L) { if (isSigned(n.k)) n.i = static_cast<int64_t>(t); else n.u = static_cast<uint64_t>(t); }
 			n.loaded = ok;
 		} else n.unsupported = true;
 	};
@@ -234,7 +236,7 @@ void dispatch(Node& n, Call call) {
 	case Ts:
 		if constexpr (Call::template canValue<CBinTimestamp>()) {
 			CBinTimestamp t(n.ts_sec, n.ts_ns); bool ok = call.raw(t);
-			if (L && ok) { n.ts_sec = t.Seconds; n.ts_ns = t.Nanoseconds; }
+			if (L) { n.ts_sec = t.Seconds; n.ts_ns = t.Nanoseconds; }
 			n.loaded = ok;
 		} else n.unsupported = true;
 		break;
